@@ -181,6 +181,20 @@ def _logprob(case, ctx, g):
         ctx.cell(_cellkey(case))
         return
     ctx.close("log_prob", got, ref.expand(got.shape) if got.shape != ref.shape and got.numel() == ref.numel() else ref, "direct", cls=cls, vrel=vrel)
+    if not case["fast"]:
+        # the exact path stays exact for events larger than max_cholesky_size (fresh object: nothing cached yet)
+        g2 = util.gen(case["seed"])
+        cov2, _ = make_cov(case["rep"], g2, db, N)
+        d2 = MVN(util.randn(g2, *mb, N), cov2)
+        try:
+            with S.fast_computations(log_prob=False), S.max_cholesky_size(0):
+                got2 = d2.log_prob(v)
+                L2 = d2.scale_tril
+            ctx.close("log_prob", got2, ref.expand(got2.shape) if got2.shape != ref.shape and got2.numel() == ref.numel() else ref, "direct", cls=cls + ":above_size_threshold", vrel=vrel)
+            ctx.close("derived_scale_tril", L2 @ L2.transpose(-1, -2), C.expand(*L2.shape[:-2], N, N), (1e-7, 1e-7), cls=case["rep"] + ":scale_tril:above_size_threshold")
+            ctx.expect("scale_tril_is_lower_triangular", bool((L2.triu(1) == 0).all()), "scale_tril has entries above the diagonal", rep=case["rep"])
+        except Exception as e:
+            ctx.fail("log_prob", f"log_prob above the size threshold raised {type(e).__name__}: {str(e)[:140]}", "raise", exc=type(e).__name__, vrel=vrel, fast=False, above_threshold=True)
     ctx.cell(_cellkey(case), nontrivial=N > 1 or True)
 
 
